@@ -215,7 +215,7 @@ def check_modifications(repo, rep):
     smp = {"cur": CUR, "P": F(3), "E": CUR, "q": F(3), "q2": F(1), "sl_old": CUR - 100, "sl_new": CUR - 50, "sl_new2": CUR - 70,
            "tp_old": CUR + 100, "tp_new": CUR + 200, "tp_new2": CUR + 300, "now": F(0), "t_created": F(0)}
     for ptype, sg in (("long", 1), ("short", -1)):
-        for changed in ("sl", "tp", "none", "sl-two-rows", "tp-two-rows"):
+        for changed in ("sl", "tp", "none", "sl-two-rows", "tp-two-rows", "sl+read-average", "tp+read-average"):
             def mk(dec):
                 it = Interp(repo, stubs=W.base_stubs(), samples=[{k: (2 * CUR - v if sg < 0 and k.startswith(("sl_", "tp_")) else v) for k, v in smp.items()}],
                             nonneg=set(smp), decisions=dec)
@@ -233,19 +233,30 @@ def check_modifications(repo, rep):
                 st.attrs["_take_profit"] = row((A("q"), A("tp_old")))
                 st.attrs["stop_loss"] = row((A("q"), A("sl_old")))
                 st.attrs["take_profit"] = row((A("q"), A("tp_old")))
-                if changed == "sl":
+                read_avg = changed.endswith("+read-average")
+                changed_ = changed.split("+")[0]
+                if changed_ == "sl":
                     st.attrs["stop_loss"] = (A("q"), A("sl_new"))
-                elif changed == "sl-two-rows":
+                elif changed_ == "sl-two-rows":
                     st.attrs["stop_loss"] = [(A("q") - A("q2"), A("sl_new")), (A("q2"), A("sl_new2"))]
-                elif changed == "tp":
+                elif changed_ == "tp":
                     st.attrs["take_profit"] = (A("q"), A("tp_new"))
-                elif changed == "tp-two-rows":
+                elif changed_ == "tp-two-rows":
                     st.attrs["take_profit"] = [(A("q") - A("q2"), A("tp_new")), (A("q2"), A("tp_new2"))]
                 # entries (position is open: the entry declaration of the open side is compared too)
                 ent = row((A("P"), A("E")))
                 st.attrs["buy" if sg > 0 else "sell"] = ent
                 st.attrs["_buy" if sg > 0 else "_sell"] = Arr2([Arr(list(r.items)) for r in ent.rows])
-                return it, lambda it: it.call(it.getattr(st, "_detect_and_handle_entry_and_exit_modifications"), [], {})
+                def go(it):
+                    if read_avg:
+                        # the hook that re-declared the exit also READS the average exit price (a getter must not disturb the
+                        # remembered declaration the modification test compares with)
+                        try:
+                            it.getattr(st, "average_stop_loss" if changed_ == "sl" else "average_take_profit")
+                        except NotInFragment:
+                            pass
+                    return it.call(it.getattr(st, "_detect_and_handle_entry_and_exit_modifications"), [], {})
+                return it, go
             for out in explore(mk, 64):
                 key = f"{ptype}|{changed}"
                 if out.kind != "return":
@@ -257,9 +268,10 @@ def check_modifications(repo, rep):
                 probs = []
                 sl_cancelled = by["OLD_SL"].attrs["status"] == CANCELED
                 tp_cancelled = by["OLD_TP"].attrs["status"] == CANCELED
+                changed_ = changed.split("+")[0]
                 exp_rows = {"sl": [("sl_new", A("q"))], "sl-two-rows": [("sl_new", A("q") - A("q2")), ("sl_new2", A("q2"))],
-                            "tp": [("tp_new", A("q"))], "tp-two-rows": [("tp_new", A("q") - A("q2")), ("tp_new2", A("q2"))], "none": []}[changed]
-                kind = {"sl": "sl", "sl-two-rows": "sl", "tp": "tp", "tp-two-rows": "tp", "none": None}[changed]
+                            "tp": [("tp_new", A("q"))], "tp-two-rows": [("tp_new", A("q") - A("q2")), ("tp_new2", A("q2"))], "none": []}[changed_]
+                kind = {"sl": "sl", "sl-two-rows": "sl", "tp": "tp", "tp-two-rows": "tp", "none": None}[changed_]
                 if sl_cancelled != (kind == "sl"):
                     probs.append(f"old stop-loss {'cancelled' if sl_cancelled else 'left active'}")
                 if tp_cancelled != (kind == "tp"):
